@@ -28,7 +28,8 @@ theorem settleStep_cases' (g g' : G) (h : settleStep g = some g') :
       obtain ⟨w, hwm, hw⟩ := findSome_some _ _ _ hn
       exact ⟨n, nd, hg, Or.inr ⟨w, List.mem_range.mp hwm, hw⟩⟩
 
-theorem gWrite_sink (g : G) (key : Nat) (qid : Pid) (v : Val) (k : Nat) (hl : getL g.links key = [.sink k]) :
+theorem gWrite_sink (g : G) (key : Nat) (qid : Pid) (v : Val) (k : Nat) (hl : getL g.links key = [.sink k])
+    (hd : aget g.log.dels qid = none) :
     gWrite g key qid v =
       ({ g with writers := aset g.writers key (Flow.Writer.mk ((gw g.writers key).rows ++ [[none]]) (gw g.writers key).queue),
                 fifo := aset g.fifo (rkeyOf (.sink k)) (getL g.fifo (rkeyOf (.sink k)) ++ [key]),
@@ -37,11 +38,13 @@ theorem gWrite_sink (g : G) (key : Nat) (qid : Pid) (v : Val) (k : Nat) (hl : ge
                 next := g.next + 1,
                 log := { g.log with owner := aset g.log.owner g.next (rkeyOf (.sink k)),
                                     dels := aset g.log.dels qid [g.next] } }, true) := by
-  simp only [gWrite, hl, deliverAll, deliver, List.length_singleton, List.replicate, getWriter_eq]
+  have hd' : getL g.log.dels qid = [] := by simp [getL, hd]
+  simp only [gWrite, hl, deliverAll, deliver, List.length_singleton, List.replicate, getWriter_eq, hd', List.nil_append]
 
 theorem gWrite_node (g : G) (key : Nat) (qid : Pid) (v : Val) (m port : Nat) (ndm ndm' : Node) (ev : List Ev)
     (hl : getL g.links key = [.node m port]) (hn : getNode g.nodes m = some ndm)
-    (hs : Node.step ndm (.deliver port ⟨g.next, v⟩) = some (ndm', ev)) :
+    (hs : Node.step ndm (.deliver port ⟨g.next, v⟩) = some (ndm', ev))
+    (hd : aget g.log.dels qid = none) :
     gWrite g key qid v =
       ({ g with writers := aset g.writers key (Flow.Writer.mk ((gw g.writers key).rows ++ [[none]]) (gw g.writers key).queue),
                 fifo := aset g.fifo (rkeyOf (.node m port)) (getL g.fifo (rkeyOf (.node m port)) ++ [key]),
@@ -49,7 +52,8 @@ theorem gWrite_node (g : G) (key : Nat) (qid : Pid) (v : Val) (m port : Nat) (nd
                 next := g.next + 1,
                 log := { g.log with owner := aset g.log.owner g.next (rkeyOf (.node m port)),
                                     dels := aset g.log.dels qid [g.next] } }, true) := by
-  simp only [gWrite, hl, deliverAll, deliver, List.length_singleton, List.replicate, getWriter_eq, hn, hs]
+  have hd' : getL g.log.dels qid = [] := by simp [getL, hd]
+  simp only [gWrite, hl, deliverAll, deliver, List.length_singleton, List.replicate, getWriter_eq, hn, hs, hd', List.nil_append]
 
 theorem gWrite_none (g : G) (key : Nat) (qid : Pid) (v : Val) (hl : getL g.links key = []) :
     gWrite g key qid v = (g, false) := by
